@@ -12,12 +12,12 @@ from .core import VERIF, Report
 
 
 def _verify_one(args):
-    target, tier, budget = args
+    target, tier, budget, shard = args
     import warnings
 
     from pyvc.run import verify
 
-    rep = verify(target, tier, budget)
+    rep = verify(target, tier, budget, shard=shard)
     out = {
         "target": rep.target,
         "props": rep.props,
@@ -53,14 +53,33 @@ def run_p(report: Report, prop: str, tier: str, targets: Optional[List[str]] = N
     results: Dict[str, dict] = {}
     if not targets:
         return results
-    with ProcessPoolExecutor(max_workers=min(workers, len(targets))) as pool:
-        futs = {pool.submit(_verify_one, (t, tier, budget)): t for t in targets}
+    from pyvc.contracts import load_all
+
+    reg = load_all()
+    jobs = []
+    for t in targets:
+        n = int(getattr(reg.contract_for(t), "shards", 1))
+        for k in range(n):
+            jobs.append((t, tier, budget, (k, n)))
+    # heavy (sharded) functions first
+    jobs.sort(key=lambda j: -j[3][1])
+    with ProcessPoolExecutor(max_workers=min(workers, len(jobs))) as pool:
+        futs = {pool.submit(_verify_one, j): j for j in jobs}
         for fut in as_completed(futs):
-            t = futs[fut]
+            t = futs[fut][0]
             try:
-                results[t] = fut.result()
+                r = fut.result()
             except Exception as e:  # worker crash
-                results[t] = {"target": t, "status": "tool-error", "error": f"worker crash: {e!r}", "verdicts": [], "props": [], "path": "", "lineno": 0, "sha256": "", "solver_ms": 0, "wall_ms": 0, "paths": 0, "assumed_calls": [], "callees": []}
+                r = {"target": t, "status": "tool-error", "error": f"worker crash: {e!r}", "verdicts": [], "props": [], "path": "", "lineno": 0, "sha256": "", "solver_ms": 0, "wall_ms": 0, "paths": 0, "assumed_calls": [], "callees": []}
+            if t in results:  # merge shards
+                prev = results[t]
+                prev["verdicts"] += r["verdicts"]
+                prev["solver_ms"] += r["solver_ms"]
+                prev["wall_ms"] = max(prev["wall_ms"], r["wall_ms"])
+                if r["status"] == "tool-error":
+                    prev["status"], prev["error"] = r["status"], r["error"]
+            else:
+                results[t] = r
     expected = {}
     if os.path.exists(obligations_file(prop)):
         with open(obligations_file(prop)) as f:
